@@ -156,6 +156,9 @@ func c01Sched() []nschedTask {
 		{P: one, Hist: []string{"ans", "ans:1", "ans", "tick:250", "ext:1", "tick:250", "settle"}},
 		{P: sc[0], Hist: []string{"ext:2", "ans", "reorg:1:2", "ans", "ans", "tick:250", "back:1", "settle"}},
 		{P: sc[0], Hist: []string{"ext:12", "ans", "ans", "reorg:2:3", "tick:250", "settle"}},
+		// a reorganisation from below the processed tip while a block of the old branch is between NextBlock and ProcessBlock
+		{P: sc[0], Hist: []string{"ext:2", "ans", "tick:250", "reorg:3:4", "tick:250", "settle"}},
+		{P: sc[0], Hist: []string{"ext:2", "ans", "ans", "tick:250", "reorg:4:5", "tick:250", "settle"}},
 		{P: sc[1], Hist: []string{"ans", "ans", "reorg:3:4", "ans", "tick:250", "settle"}},
 	}
 }
